@@ -58,9 +58,10 @@ func (r *yieldRewriter) rewriteRanges(block *ast.BlockStmt) {
 				do(cstNewMapIter, n.X)
 			case *types.Chan:
 				do(cstNewChanIter, n.X)
-			case *types.Signature:
-				panic("implement me: range func")
 			}
+			// every other operand (range over func, pointer to array, type
+			// parameter) stays a native range statement: that is correct as long
+			// as its body does not yield, which is asserted after rewriting
 		}
 		return true
 	})
